@@ -132,6 +132,19 @@ OpenType ==
   /\ Emit([op |-> "open", kind |-> "type", name |-> Name("t")])
   /\ UNCHANGED closed /\ Same
 
+\* a derived type that has the name of a generic interface declared earlier in the same scope
+\* (the structure-constructor overloading idiom: "interface circle" ... "type :: circle")
+IfacesHere == {c.name : c \in {x \in closed : x.kind = "iface_named" /\ x.depth = Depth + 1 /\ x.sline > Top.sline
+                   /\ ~\E y \in closed : y.kind = "type" /\ y.name = x.name}}
+OpenTypeNamedLikeIface(g) ==
+  /\ Bounded /\ Depth > 0 /\ Depth < MaxDepth /\ Top.kind \in {"module", "program"} /\ Top.phase <= 2 /\ g \in IfacesHere
+  /\ \A i \in 1..Depth : stack[i].name # g
+  /\ stack' = Append([stack EXCEPT ![Depth].phase = 2],
+                     [kind |-> "type", name |-> g, sline |-> Line, phase |-> 2,
+                      implicitNone |-> FALSE, nproc |-> 0, needProc |-> FALSE, nbody |-> 0, uses |-> {}])
+  /\ Emit([op |-> "open", kind |-> "type", name |-> g])
+  /\ UNCHANGED closed /\ Same
+
 TypeContains ==
   /\ Bounded /\ Depth > 1 /\ Top.kind = "type" /\ Top.phase = 2
   /\ stack[Depth - 1].kind = "module"          \* bindings need module procedures to bind to
@@ -309,6 +322,7 @@ ValidStmt ==
   \/ ImplicitNone \/ Decl \/ OpenType \/ TypeContains \/ Binding
   \/ \E t \in TypesVisible : DeclTyped(t)
   \/ \E ib \in IbodiesHere : DeclProcPtr(ib)
+  \/ \E g \in IfacesHere : OpenTypeNamedLikeIface(g)
   \/ \E k \in IfaceKinds : OpenIface(k)
   \/ \E pk \in ProcKinds : OpenIbody(pk)
   \/ Exec
@@ -353,7 +367,8 @@ TypeFocus == \/ \E k \in {"module", "sub"} : OpenUnit(k)
 SpecTypes == Init /\ [][TypeFocus]_vars
 \* focus generator: PROCEDURE(iface) declarations next to CONTAINS'ed procedures
 ProcFocus == \/ \E k \in {"module", "program"} : OpenUnit(k)
-             \/ OpenIface("iface_abstract") \/ OpenIbody("sub") \/ End("kind")
+             \/ OpenIface("iface_abstract") \/ OpenIface("iface_named") \/ OpenIbody("sub") \/ End("kind")
+             \/ \E g \in IfacesHere : OpenTypeNamedLikeIface(g)
              \/ \E ib \in IbodiesHere : DeclProcPtr(ib)
              \/ ContainsStmt \/ OpenProc("sub") \/ Decl
 SpecProcs == Init /\ [][ProcFocus]_vars
